@@ -127,7 +127,8 @@ InitM == [cs |-> FALSE, pass |-> 1, errs |-> 0, ekinds |-> {},
           sects |-> <<>>, mom |-> -1, stk |-> <<>>,      \* FirstSection list, MomSectionHandle, SectionStack (Symbols)
           nsec |-> 0,                                    \* SECTION statements met in this pass (their names)
           tab |-> EmptyF,                                \* MacroRoot: <<name, section handle>> -> [rec, defined]
-          out |-> <<>>, devs |-> {}, crash |-> FALSE]
+          out |-> <<>>, devs |-> {}, crash |-> FALSE,
+          first |-> 0]                                   \* bookkeeping of the model: statement that raised the first error
 
 Emit(s, e) == [s EXCEPT !.out = Append(@, e)]
 Dev(s, d) == [s EXCEPT !.devs = @ \cup {d}]
@@ -202,7 +203,10 @@ Step(s, st, i) ==
     [] OTHER          -> IfDef(s, st.n)
 
 RECURSIVE RunPass(_, _, _)
-RunPass(p, i, s) == IF i > Len(p) \/ s.crash THEN s ELSE RunPass(p, i + 1, Step(s, p[i], i))
+RunPass(p, i, s) ==
+  IF i > Len(p) \/ s.crash THEN s
+  ELSE LET t == Step(s, p[i], i)
+       IN RunPass(p, i + 1, IF s.first = 0 /\ (t.errs > 0 \/ t.crash) THEN [t EXCEPT !.first = i] ELSE t)
 
 \* AssembleFile_InitPass: sections closed, ResetMacroDefines(); the section list and the macro tree stay
 NextPass(s) == [s EXCEPT !.pass = @ + 1, !.mom = -1, !.stk = <<>>, !.nsec = 0, !.out = <<>>,
@@ -222,7 +226,7 @@ MOutcome(s) == Outcome(s.crash, s.ekinds, s.out)
 (* ordinals that leads to it (<<>> = global); "known in a section and its  *)
 (* subsections" = the definition's section is a prefix of the caller's.    *)
 (***************************************************************************)
-DInit == [defs |-> <<>>, path |-> <<>>, nsec |-> 0, ek |-> {}, out |-> <<>>]
+DInit == [defs |-> <<>>, path |-> <<>>, nsec |-> 0, ek |-> {}, out |-> <<>>, first |-> 0]
 IsPrefix(a, b) == Len(a) <= Len(b) /\ SubSeq(b, 1, Len(a)) = a
 Front(q) == SubSeq(q, 1, Len(q) - 1)
 Known(defs, path, n) == {j \in 1..Len(defs) : defs[j].n = n /\ IsPrefix(defs[j].sec, path)}
@@ -266,11 +270,16 @@ DStep(D, st, i, later) ==
     [] OTHER          -> DEmit(D, Ent(IF Resolve(D.defs, D.path, st.n) # 0 THEN "yes" ELSE "no", 0, st.n))
 
 RECURSIVE DRun(_, _, _, _)
-DRun(p, i, D, later) == IF i > Len(p) THEN D ELSE DRun(p, i + 1, DStep(D, p[i], i, later), later)
+DRun(p, i, D, later) ==
+  IF i > Len(p) THEN D
+  ELSE LET E == DStep(D, p[i], i, later)
+       IN DRun(p, i + 1, IF D.first = 0 /\ E.ek # {} THEN [E EXCEPT !.first = i] ELSE E, later)
 DPass1(p) == DRun(p, 1, DInit, FALSE)
 Decl(p, more) ==
   LET D1 == DPass1(p) IN
   IF D1.ek # {} \/ ~more THEN D1 ELSE DRun(p, 1, [DInit EXCEPT !.defs = D1.defs], TRUE)
+\* no error before statement k, on either side (a program rejected before its last statement says nothing new)
+CleanBefore(r, k) == r.m1.first \in {0} \cup k..1000 /\ r.d1.first \in {0} \cup k..1000
 DOutcome(D) == Outcome(FALSE, D.ek, D.out)
 
 \* the manual says nothing about IFDEF of a macro name (IFDEF <symbol>): programs with it are observed, not judged
